@@ -24,3 +24,155 @@ contract(
     ensures=[tag("C11", "model-mode", "supports and self.__equations == equations"),
              tag("C11", "model-mode-never-collects", "not self.__collect")],
 )
+
+
+# ====================================================================== evaluate (C11): purity of the value
+# Abstract view of what the method reads: the immutable configuration (training starts, steps, time, controller,
+# gamma, ...), the current dynamics `self.__equations`, the flag `self.__collect`, and the re-used buffer
+# `self.__results` (declared *uninit*: its contents at entry are whatever an earlier call left there, and every read
+# before a write in this call is an `init` obligation -- this is the clause "a freshly created objective would
+# return the same value").  run_ode / j_from_ode / diff_from_ode / sum_up_results are external to this contract:
+# each is an assumed *pure* function (uninterpreted), so the value of evaluate is proved to be one fixed expression
+# in (x, configuration, current equations) and in nothing else.
+from pyvc.spec import A1, A2, OBJ, REAL, Loop, Summary, spec  # noqa: E402
+
+spec("ode_of(case, eq, x)", None, ret="int", ptypes=["int", "int", "int"])      # identity of run_ode's result
+spec("j_of(ode)", None, ret="real", ptypes=["int"])                              # j_from_ode of that result
+spec("agg(results, n)", None, ret="real", ptypes=["arr1r", "int"])               # sum_up_results over results[0..n)
+spec("j_ok(z)", "0.0 <= z and z <= 1e100", ret="bool")
+spec("J(k, eq, x)", "j_of(ode_of(k, eq, x))", ret="real")
+
+_run_ode = contract("<opaque>:run_ode", params={"start": OBJ, "equations": PYINT, "controller": PYINT, "x": PYINT,
+                                                "controller_dim": PYINT, "steps": PYINT, "time": REAL},
+                    ghosts={"case": PYINT}, returns=PYINT, ensures=["result == ode_of(case, equations, x)"],
+                    assumptions=["run_ode is a pure function of (start, equations, controller, parameters, controller_dim, "
+                                 "steps, time): it allocates its own buffers and keeps no state (checked by the bounded "
+                                 "harness of C10 only)"])
+_j_from_ode = contract("<opaque>:j_from_ode", params={"ode": PYINT, "state_dim": PYINT, "state_dims_in_j": PYINT,
+                                                      "gamma": REAL},
+                       returns=REAL, ensures=["result == j_of(ode)"],
+                       assumptions=["j_from_ode is a pure function of the simulation result (contract proved under C10)"])
+
+_ev_fields = dict(_fields)
+_ev_fields.update({"self.__steps": PYINT, "self.__time": REAL, "self.__training": A2(None, "real"),
+                   "self.__results": A1(None, "real", uninit=True), "self.__controller": PYINT,
+                   "self.__controller_dim": PYINT, "self.__state_dims_in_j": PYINT, "self.__gamma": REAL})
+
+contract(
+    FM + ":FigureOfMerit.evaluate", props="C11",
+    params={"x": PYINT}, ghosts={"ncol": PYINT}, fields=_ev_fields, i64=False, returns=REAL,
+    attrs={"self.__append": "1"},
+    assigns=[],                  # evaluate assigns no attribute: mode, dynamics and configuration are left alone
+    opaque={"run_ode": _run_ode, "j_from_ode": _j_from_ode},
+    calls={"run_ode": {"case": "i"}},
+    requires=["shape(self.__training, 0) >= 1 and shape(self.__training, 1) >= 1",
+              "shape(self.__results, 0) == shape(self.__training, 0)", "ncol >= 0"],
+    summaries={
+        "call np.copy #0": Summary({}, [], "np.copy(start.flatten()): result discarded, no effect"),
+        "call collector #0": Summary({"ncol": PYINT}, ["ncol == prev(ncol) + 1"],
+                                     "self.__append(diff_from_ode(the_ode, state_dim)): one sample block appended to each "
+                                     "of the two collection lists; nothing else changes"),
+        "assign z #0": Summary({"z": REAL}, ["z == agg(results, shape(results, 0))"],
+                               "self.sum_up_results(results): a pure function of results[0..n) (mean, or the log-exp "
+                               "variant); may destroy the buffer contents, which is why results is uninit on entry"),
+    },
+    asserts={"after for #0": [tag("C11", "buffer-completely-rewritten-before-aggregation",
+                                  "forall(k, 0, shape(results, 0), written(results, k))")]},
+    loops={"0": Loop(inv=["0 <= i and i <= shape(training, 0)",
+                          "forall(k, 0, i, written(results, k) and results[k] == J(k, equations, x) and j_ok(results[k]))",
+                          "ncol == at_loop(ncol) + (i if self.__collect else 0)"])},
+    ensures=[
+        tag("C11", "failure-value-iff-some-case-fails",
+            "(result == 1e200 and not j_ok(agg(self.__results, shape(self.__training, 0))) and "
+            "forall(k, 0, shape(self.__training, 0), j_ok(J(k, self.__equations, x)))) or "
+            "(result == 1e200 and exists(k, 0, shape(self.__training, 0), not j_ok(J(k, self.__equations, x)))) or "
+            "(j_ok(result) and result == agg(self.__results, shape(self.__training, 0)))"),
+        tag("C11", "aggregate-over-all-cases",
+            "implies(result != 1e200, forall(k, 0, shape(self.__training, 0), "
+            "self.__results[k] == J(k, self.__equations, x)))"),
+        tag("C11", "range", "result == 1e200 or (0.0 <= result and result <= 1e100)"),
+        tag("C11", "collects-only-in-collect-mode", "self.__collect or ncol == old(ncol)"),
+        tag("C11", "collects-at-most-one-block-per-case",
+            "ncol >= old(ncol) and ncol <= old(ncol) + shape(self.__training, 0)"),
+        tag("C11", "collects-every-case-of-a-successful-evaluation",
+            "implies(result != 1e200 and self.__collect, ncol == old(ncol) + shape(self.__training, 0))"),
+    ],
+    assumptions=["floats are treated as reals: NaN is not modelled (a NaN figure of merit fails `0.0 <= z <= 1e100` in "
+                 "the real code and yields 1e200; the bounded harness exercises NaN cases)"],
+)
+
+
+# ====================================================================== initialize / __append / get_differentials (C11)
+# the two collection lists are modelled by their lengths nsc / ndf (ghosts); list.clear()/append() are summaries
+_LST = {"nsc": PYINT, "ndf": PYINT}
+_attrs2 = dict(_attrs)
+_attrs2["self.__collection_df"] = "opt(supports)"
+
+contract(
+    FM + ":FigureOfMerit.initialize", props="C11",
+    params={}, ghosts=dict({"real_eq": PYINT, "supports": BOOL}, **_LST), fields=_fields, attrs=_attrs2, i64=False,
+    assigns=["self.__equations", "self.__collect"],
+    requires=["nsc >= 0 and ndf >= 0"],
+    summaries={
+        "call super().initialize #0": Summary({}, [], "moptipy Component.initialize: empty"),
+        "call self.__collection_df.clear #0": Summary({"ndf": PYINT}, ["ndf == 0"], "list.clear()"),
+        "call self.__collection_sc.clear #0": Summary({"nsc": PYINT}, ["nsc == 0"], "list.clear()"),
+    },
+    ensures=[tag("C11", "collected-data-cleared", "implies(supports, nsc == 0 and ndf == 0)"),
+             tag("C11", "nothing-to-clear-without-model-mode", "implies(not supports, nsc == old(nsc) and ndf == old(ndf))"),
+             tag("C11", "back-to-raw-mode", "self.__equations == real_eq"),
+             tag("C11", "collects-iff-supported", "self.__collect == supports")],
+)
+contract(
+    FM + ":FigureOfMerit.__append", props="C11",
+    params={"data": OBJ}, ghosts=dict(_LST), i64=False, assigns=[],
+    requires=["nsc >= 0 and ndf == nsc"],
+    summaries={
+        "call self.__collection_sc.append #0": Summary({"nsc": PYINT}, ["nsc == prev(nsc) + 1"], "list.append(data[0])"),
+        "call self.__collection_df.append #0": Summary({"ndf": PYINT}, ["ndf == prev(ndf) + 1"], "list.append(data[1])"),
+    },
+    ensures=[tag("C11", "one-block-on-each-list", "nsc == old(nsc) + 1 and ndf == nsc")],
+)
+
+
+def prove_c11(tier, seed):
+    """The two aggregation methods against the documented aggregates: the operation tree of the real return expression
+    (read from /repo on every run) is normalised (float(.) is the identity on floats; the `out=` argument of log1p only
+    says where the result is stored) and compared with mean(J) resp. expm1(mean(log1p(J)))."""
+    import ast as _ast
+    from pyvc.extract import get_function
+    from pyvc.floatsym import Res
+    P = frozenset(["C11"])
+
+    def norm(e):
+        if isinstance(e, _ast.Name):
+            return e.id
+        if isinstance(e, _ast.Call):
+            f = e.func
+            if isinstance(f, _ast.Name) and f.id == "float" and len(e.args) == 1:
+                return norm(e.args[0])
+            if isinstance(f, _ast.Attribute) and f.attr == "mean" and not e.args and not e.keywords:
+                return ("mean", norm(f.value))
+            fname = f.id if isinstance(f, _ast.Name) else (f.attr if isinstance(f, _ast.Attribute)
+                                                           and getattr(f.value, "id", "") in ("np", "numpy", "math") else None)
+            if fname in ("expm1", "log1p", "exp", "log") and 1 <= len(e.args) <= 2 and not e.keywords:
+                if len(e.args) == 2 and norm(e.args[1]) != norm(e.args[0]):
+                    return ("?", _ast.unparse(e))
+                return (fname, norm(e.args[0]))
+        return ("?", _ast.unparse(e))
+    res = []
+    for cls, want, label in (("FigureOfMerit", ("mean", "results"), "aggregate-is-the-mean"),
+                             ("FigureOfMeritLE", ("expm1", ("mean", ("log1p", "results"))),
+                              "aggregate-is-expm1-of-mean-of-log1p")):
+        qn = f"{FM}:{cls}.sum_up_results"
+        try:
+            fs = get_function(qn)
+            body = [s for s in fs.node.body if not (isinstance(s, _ast.Expr) and isinstance(s.value, _ast.Constant))]
+            got = norm(body[0].value) if len(body) == 1 and isinstance(body[0], _ast.Return) else ("?", "not a single return")
+            st = "proved" if got == want else ("undecided" if "?" in str(got) else "refuted")
+            res.append(Res(qn, "post", label, P, st, backend="normal-form",
+                           witness=None if st == "proved" else {"code": str(got), "documented": str(want)},
+                           reason="operation tree of the real return expression vs the documented aggregate"))
+        except Exception as ex:      # noqa: BLE001
+            res.append(Res(qn, "post", label, P, "undecided", backend="normal-form", reason=repr(ex)))
+    return res
